@@ -265,6 +265,13 @@ func AddContext(context interface{}, newContext ssi.URI) []interface{} {
 
 // Canonicalize canonicalizes the json-ld input according to the URDNA2015 [RDF-DATASET-NORMALIZATION] algorithm.
 func (util LDUtil) Canonicalize(input interface{}) (result interface{}, err error) {
+	// The JSON-LD processor panics on some malformed documents (e.g. a scalar where it expects a node object).
+	// Documents to canonicalize are often received from other parties, so report that as an error.
+	defer func() {
+		if r := recover(); r != nil {
+			result, err = nil, fmt.Errorf("unable to normalize the json-ld document: %v", r)
+		}
+	}()
 	var optionsMap map[string]interface{}
 	inputAsJSON, _ := json.Marshal(input)
 	if err := json.Unmarshal(inputAsJSON, &optionsMap); err != nil {
